@@ -315,6 +315,7 @@ type originRead struct {
 	term    string // the record as rendered when it was returned by the read
 	stale   bool
 	differs bool // a stale / foreign origin whose content is not what is stored now
+	actDiff bool // ... whose sys.IsActive is not the stored one
 }
 
 type heldRec struct {
@@ -392,13 +393,14 @@ func (r *runner) readOrigins(ev *eventSpec) ([]*originRead, error) {
 		if via >= 0 {
 			r.terms = append(r.terms, fmt.Sprintf("SObs %d %d %d %s", via, u.Target.WS, id, term))
 		}
-		differs := false
+		differs, actDiff := false, false
 		if stale {
 			if cur, e := r.get(u.Target.WS, id); e == nil {
 				differs = r.safeOptRecTerm(cur) != term
+				actDiff = cur.QName() != appdef.NullQName && cur.AsBool(appdef.SystemField_IsActive) != origin.AsBool(appdef.SystemField_IsActive)
 			}
 		}
-		out[i] = &originRead{origin, strings.TrimSuffix(strings.TrimPrefix(term, "(Some "), ")"), stale, differs}
+		out[i] = &originRead{origin, strings.TrimSuffix(strings.TrimPrefix(term, "(Some "), ")"), stale, differs, actDiff}
 	}
 	return out, nil
 }
@@ -460,7 +462,7 @@ func (r *runner) runEvent(ev *eventSpec, origins []*originRead, obs map[string]a
 		origin                istructs.IRecord
 		originTerm            string
 		id, parent, container uint64
-		active                bool
+		assign                string
 		changes               []string
 	}
 	var cts []*cterm
@@ -509,7 +511,7 @@ func (r *runner) runEvent(ev *eventSpec, origins []*originRead, obs map[string]a
 		lazies = append(lazies, lazy{w, t, c.Puts, ct.changes})
 		cts = append(cts, ct)
 	}
-	stale, staleDiffers := false, false
+	stale, staleDiffers, actLeak := false, false, false
 	for i := range ev.Updates {
 		u := &ev.Updates[i]
 		if origins[i] == nil {
@@ -518,15 +520,16 @@ func (r *runner) runEvent(ev *eventSpec, origins []*originRead, obs map[string]a
 		origin := origins[i].rec
 		stale = stale || origins[i].stale
 		staleDiffers = staleDiffers || origins[i].differs
+		actLeak = actLeak || (origins[i].actDiff && u.Active == nil)
 		// the object about to be handed to Update must still be what the read returned
 		r.terms = append(r.terms, fmt.Sprintf("SHeld (Some %s) %s", origins[i].term, r.safeOptRecTerm(origin)))
 		t := typeByName(origin.QName().Entity())
 		w := cud.Update(origin)
 		ut := &uterm{spec: u, t: t, origin: origin, originTerm: origins[i].term, id: uint64(origin.ID()), parent: uint64(origin.Parent()),
-			container: containerIdx(origin.Container()), active: origin.AsBool(appdef.SystemField_IsActive), changes: keeps(len(t.Fields))}
+			container: containerIdx(origin.Container()), assign: "None", changes: keeps(len(t.Fields))}
 		if u.Active != nil {
 			w.PutBool(appdef.SystemField_IsActive, *u.Active)
-			ut.active = *u.Active
+			ut.assign = "(Some " + coqBool(*u.Active) + ")"
 		}
 		if u.SysParent != nil {
 			p := r.resolve(*u.SysParent)
@@ -581,7 +584,7 @@ func (r *runner) runEvent(ev *eventSpec, origins []*originRead, obs map[string]a
 				containerIdx(c.Container), coqBool(active), kit.List(ct.changes)))
 		}
 		for _, ut := range uts {
-			us = append(us, fmt.Sprintf("mkUpdate %d %s %d %d %s %s", ut.id, ut.originTerm, ut.parent, ut.container, coqBool(ut.active), kit.List(ut.changes)))
+			us = append(us, fmt.Sprintf("mkUpdate %d %s %d %d %s %s", ut.id, ut.originTerm, ut.parent, ut.container, ut.assign, kit.List(ut.changes)))
 		}
 		return fmt.Sprintf("(mkEvent %d %s %s)", ev.WS, kit.List(cs), kit.List(us))
 	}
@@ -634,6 +637,11 @@ func (r *runner) runEvent(ev *eventSpec, origins []*originRead, obs map[string]a
 	if stale {
 		r.tags["stale-origin"] = true
 		r.shape.WriteString("~")
+	}
+	if actLeak {
+		// observed: an applied update that does not assign sys.IsActive was built from an object whose
+		// activity is not the stored one (finding F-C03-2: the object's activity is written and logged)
+		r.tags["F-C03-2:unassigned-activity-from-stale-object"] = true
 	}
 	if staleDiffers {
 		// observed: BuildRawEvent and Apply accepted an update whose origin object is not the stored record
@@ -746,7 +754,12 @@ func (r *runner) loggedTerm(ofs istructs.Offset) (string, error) {
 		if row.IsNew() {
 			cs = append(cs, fmt.Sprintf("mkCreate %s %d %d %d %d %s %s", coqBool(t.Singleton), row.ID(), typeIdx(row.QName()), parent, cont, active, kit.List(changes)))
 		} else {
-			us = append(us, fmt.Sprintf("mkUpdate %d (mkRec %d %d 0 0 true []) %d %d %s %s", row.ID(), row.ID(), typeIdx(row.QName()), parent, cont, active, kit.List(changes)))
+			// the row says whether the event assigned sys.IsActive (stored mask bit) and carries a value either way
+			assign := "None"
+			if row.IsActivated() || row.IsDeactivated() {
+				assign = "(Some " + active + ")"
+			}
+			us = append(us, fmt.Sprintf("mkUpdate %d (mkRec %d %d 0 0 %s []) %d %d %s %s", row.ID(), row.ID(), typeIdx(row.QName()), active, parent, cont, assign, kit.List(changes)))
 		}
 		return true
 	})
